@@ -162,3 +162,65 @@ Lemma iter_max_none l : iter_max l = None <-> l = [].
 Proof. destruct l; simpl; split; congruence. Qed.
 Lemma iter_min_none l : iter_min l = None <-> l = [].
 Proof. destruct l; simpl; split; congruence. Qed.
+
+(** ** any sorted permutation is the model's sort, up to precedence-equality
+    ([slice::sort] is modelled as a stable insertion sort; this theorem makes the consistency of sorting independent of that
+    choice: whatever algorithm produced a sorted permutation, position by position it holds precedence-equal versions) *)
+Definition veqv (a b : version) : Prop := vcmp a b = Eq.
+Lemma veqv_sym a b : veqv a b -> veqv b a.
+Proof. unfold veqv. intro H. rewrite (v_anti a b), H. reflexivity. Qed.
+Lemma veqv_trans a b c : veqv a b -> veqv b c -> veqv a c.
+Proof. unfold veqv. intros H1 H2. rewrite (v_eq_l a b c H1). exact H2. Qed.
+Lemma veqv_le a b : veqv a b -> vleP a b.
+Proof. unfold veqv. intro H. apply vleP_iff. rewrite H. discriminate. Qed.
+Lemma vle_eqv_r a b c : vleP a b -> veqv b c -> vleP a c.
+Proof. intros H1 H2. apply vleP_iff. apply vleP_iff in H1. unfold veqv in H2. rewrite <- (v_eq_r b c a H2). exact H1. Qed.
+Lemma vle_antisym a b : vleP a b -> vleP b a -> veqv a b.
+Proof. intros H1 H2. apply vleP_iff in H1, H2. unfold veqv. rewrite (v_anti a b) in H2. destruct (vcmp a b); simpl in *; congruence. Qed.
+
+Lemma Forall2_in_l {A B} (R : A -> B -> Prop) l l2 a : Forall2 R l l2 -> In a l -> exists y, In y l2 /\ R a y.
+Proof. induction 1 as [|x y l l2 H _ IH]; intros [].
+  - subst. exists y. split; [now left|exact H].
+  - destruct (IH H0) as (z & Hz & Rz). exists z. split; [now right|exact Rz].
+Qed.
+
+(** a permutation up to precedence-equality *)
+Definition permE (l1 l2 : list version) : Prop := exists l', Permutation l1 l' /\ Forall2 veqv l' l2.
+
+Lemma sorted_permE_eqv : forall l2 l1, StronglySorted vleP l1 -> StronglySorted vleP l2 -> permE l1 l2 -> Forall2 veqv l1 l2.
+Proof.
+  induction l2 as [|b t2 IH]; intros l1 S1 S2 (l' & P & F).
+  - inversion F; subst. apply Permutation_sym, Permutation_nil in P. subst. constructor.
+  - inversion F as [|c y t1' t2' Hcb Ft]; subst.
+    destruct l1 as [|a t1]; [apply Permutation_nil in P; discriminate|].
+    inversion S1 as [|? ? S1t A1]; subst. inversion S2 as [|? ? S2t A2]; subst.
+    rewrite Forall_forall in A1, A2.
+    assert (Hab : vleP a b).
+    { assert (Hc : In c (a :: t1)) by (eapply Permutation_in; [apply Permutation_sym; exact P|now left]).
+      destruct Hc as [<-|Hc]; [now apply veqv_le|]. exact (vle_eqv_r a c b (A1 c Hc) Hcb). }
+    assert (Ha' : In a (c :: t1')) by (eapply Permutation_in; [exact P|now left]).
+    assert (Hba : vleP b a).
+    { destruct Ha' as [->|Ha']; [now apply veqv_le, veqv_sym|].
+      destruct (Forall2_in_l _ _ _ _ Ft Ha') as (y & Hy & Hay). exact (vle_eqv_r b y a (A2 y Hy) (veqv_sym _ _ Hay)). }
+    pose proof (vle_antisym a b Hab Hba) as Eab.
+    constructor; [exact Eab|]. apply IH; auto.
+    destruct Ha' as [->|Ha'].
+    + exists t1'. split; [exact (Permutation_cons_inv P)|exact Ft].
+    + destruct (in_split _ _ Ha') as (u & w & ->).
+      destruct (Forall2_app_inv_l _ _ Ft) as (t2u & t2w' & Fu & Fw & ->).
+      inversion Fw as [|? y ? t2w Hay Fw']; subst.
+      exists (u ++ c :: w). split.
+      * assert (P' : Permutation (a :: t1) (a :: c :: u ++ w)).
+        { eapply Permutation_trans; [exact P|]. change (c :: u ++ a :: w) with ((c :: u) ++ a :: w). apply Permutation_sym. apply (Permutation_middle (c :: u) w a). }
+        apply Permutation_cons_inv in P'. eapply Permutation_trans; [exact P'|]. apply Permutation_middle.
+      * apply Forall2_app; [exact Fu|]. constructor; [|exact Fw'].
+        apply (veqv_trans c b y Hcb). apply (veqv_trans b a y (veqv_sym _ _ Eab) Hay).
+Qed.
+
+Theorem sort_canonical l l' : Permutation l l' -> StronglySorted vleP l' -> Forall2 (fun a b => vcmp a b = Eq) l' (vsort l).
+Proof.
+  intros P S. apply (sorted_permE_eqv (vsort l) l' S (vsort_strongly_sorted l)).
+  exists (vsort l). split.
+  - eapply Permutation_trans; [apply Permutation_sym; exact P|apply vsort_perm].
+  - clear. induction (vsort l); constructor; auto. apply v_refl.
+Qed.
